@@ -42,11 +42,13 @@ def build(repo, findings):
     f.sig(fn, ret='res', attrs=['#[verifier::loop_isolation(false)]'], ensures=[
         C('C17 plain-wait-goes-through-wait-all-whatever-the-table-looks-like', '''(self_.ids@.len() == 0 && !self_.wait_for_terminate && !self_.wait_for_first_or_next && self_.variable_to_receive_id is None)
     ==> final(context.shell).jobs.all_waited@ == old(context.shell).jobs.all_waited@ + 1'''),
+        C('C17,C02 what-a-waited-job-did-never-becomes-control-flow-of-the-waiting-shell', 'res is Ok ==> res->Ok_0.normal_flow'),
         C('C17 waiting-for-job-specs-removes-no-job-from-the-table', 'self_.ids@.len() > 0 ==> ids(final(context.shell).jobs.jobs@) == ids(old(context.shell).jobs.jobs@)'),
     ])
     k = f.loop_ordinal(fn, r'resolve_job_spec')
     f.loop(k, fn_name=fn, iter_name='it', invariant=[
         C('C17 table-ids-unchanged-so-far', 'ids(context.shell.jobs.jobs@) == ids(old(context.shell).jobs.jobs@)'),
+        C('C17,C02 the-result-so-far-carries-no-control-flow', 'result.normal_flow'),
     ], body_first='let ghost js0 = context.shell.jobs.jobs@;', body_last='''proof {
     assert(ids(context.shell.jobs.jobs@) =~= ids(js0));
 }''')
